@@ -463,6 +463,35 @@ def repr_coupling(run, model, rule="C06.repr-coupling"):
             atom = ("op", "cmp:In", (NODE, rv))
             if not any(strip_sites(a) == atom and pol for (nid, k), (kn, atoms) in gg.edge_facts.items() for a, pol in kn):
                 bad = (n, "the entry is not guarded by `node in recomputed_values`")
+        # guards: calls, subscripts and comprehensions are shown whenever they were re-computed; names, attributes,
+        # assignment expressions and f-strings additionally only when representable
+        dom = flow.cfg.dominators()
+        byid = {x.id: x for x in flow.cfg.nodes}
+        rep_fi = model.func("_represent._representable")
+        for n, key, val in stores:
+            kinds = set()
+            for did in dom[n.id]:
+                dn = byid[did]
+                if dn.kind != "test" or dn is n:
+                    continue
+                tt = strip_sites(flow.term(dn.ast, dn))
+                if tt == ("op", "cmp:In", (NODE, rv)):
+                    kinds.add("recomputed")
+                elif any(sx[0] == "call" and fi_of_term(model, sx[1]) is rep_fi for sx in subterms(tt)):
+                    kinds.add("representable")
+                elif fi.name == "visit_Name":
+                    kinds.add("non-builtin")
+                else:
+                    kinds.add("other:" + show(tt, 60))
+            want = {"recomputed"}
+            if fi.name in ("visit_Name", "visit_Attribute", "visit_NamedExpr", "visit_JoinedStr"):
+                want = {"recomputed", "representable"}
+            if fi.name == "visit_Name":
+                kinds.discard("non-builtin")  # the shadowed-builtin test may be a test of its own or a conjunct
+            if kinds != want and bad is None:
+                extra = sorted(kinds - want)
+                missing = sorted(want - kinds)
+                bad = (n, "the entry is shown under the guards %s, expected %s%s" % (sorted(kinds), sorted(want), ": re-computed %s whose value is a class, function, method, module or builtin would silently disappear from the message" % fi.name[6:].lower() if "representable" in extra else ""))
         # descent
         calls = [src_of(c) for c in ast.walk(fi.node) if isinstance(c, ast.Call)]
         descends = any(c.startswith("self.generic_visit(") for c in calls)
